@@ -60,7 +60,18 @@ type Cfg struct {
 	// Sts (variant (b), remote): "wild" = wildcard MTA-STS policy and an A-label MX host,
 	// "nil" = the policy cache returns neither a policy nor an error
 	Sts string `json:"sts"`
+	// Enh: do the scripted failures carry an enhanced status code (absent = yes)? false = ErrShape "noenh"
+	// (variant (b): the next hop does not do ENHANCEDSTATUSCODES). A dimension of Queue.tla (cfg.enh).
+	Enh *bool `json:"enh"`
+	// UniForm (with UniLocal): spelling class of the non-ASCII local parts, see uniForms (forms_test.go)
+	UniForm string `json:"uniForm"`
+	// SenderForm: "" = sender@example.com; else a spelling class of senderForms (forms_test.go; SMTPUTF8 only)
+	SenderForm string `json:"senderForm"`
+	// HdrForm: shape of the original message's header, see origHeader (forms_test.go)
+	HdrForm string `json:"hdrForm"`
 }
+
+func (c Cfg) enh() bool { return c.Enh == nil || *c.Enh }
 
 type Step struct {
 	A     string            `json:"a"`
@@ -203,6 +214,9 @@ func reportID(a string) string {
 	if strings.HasSuffix(a, "-eff") {
 		return "eff:" + unlocal(strings.TrimSuffix(a, "-eff"))
 	}
+	if strings.HasSuffix(a, "-mid") { // the intermediate address of a two-step rewrite (nested pipelines)
+		return "eff:" + unlocal(strings.TrimSuffix(a, "-mid"))
+	}
 	return unlocal(a)
 }
 
@@ -291,7 +305,11 @@ func runBehaviour(t *testing.T, b Behaviour, w *bufio.Writer) {
 		scripted.MsgSuffix = ""
 	}
 	scripted.ErrShape = b.Cfg.ErrShape
+	if !b.Cfg.enh() {
+		scripted.ErrShape = "noenh"
+	}
 	uniLocal = b.Cfg.UniLocal && b.Cfg.Utf8
+	defer setUniForm(b.Cfg.UniForm)()
 	defer func() { scripted.MsgSuffix = ""; scripted.ErrShape = ""; useIdn = false; caseVar = false; uniLocal = false }()
 	synctest.Test(t, func(t *testing.T) {
 		tr := vtrace.New(w, b.ID)
@@ -302,10 +320,10 @@ func runBehaviour(t *testing.T, b Behaviour, w *bufio.Writer) {
 		tr.Emit("Cfg", vtrace.Ev{"partial": b.Cfg.Partial, "bounce": b.Cfg.Bounce,
 			"nullSender": b.Cfg.NullSender, "mt": b.Cfg.Mt, "list": b.Cfg.List,
 			"rw": append([]string{}, b.Cfg.Rw...), "utf8": b.Cfg.Utf8, "chain": b.Cfg.Chain,
-			"idn": b.Cfg.Idn, "errtext": b.Cfg.ErrText})
+			"idn": b.Cfg.Idn, "errtext": b.Cfg.ErrText, "enh": b.Cfg.enh()})
 		tgt := &scripted.Target{Tr: tr, Plan: PlanOf(b.Hist), Partial: b.Cfg.Partial, ID: idOf}
 		var bounce module.DeliveryTarget
-		from := "sender@example.com"
+		from := senderOf(b.Cfg)
 		if b.Cfg.NullSender {
 			from = ""
 		}
@@ -313,6 +331,9 @@ func runBehaviour(t *testing.T, b Behaviour, w *bufio.Writer) {
 		if b.Cfg.Bounce {
 			bn := &scripted.Bounce{Tr: tr, ID: reportID, Fail: BouncePlanOf(b.Hist), Sender: from,
 				OrigSubject: "verif-subject-" + itoa(b.ID)}
+			if b.Cfg.HdrForm != "" {
+				_, bn.OrigFields = origHeader(b.Cfg.HdrForm, b.Cfg.Utf8, "verif-subject-"+itoa(b.ID))
+			}
 			if b.Cfg.Chain {
 				// the bounce pipeline ends in a second real queue whose own target rejects everything;
 				// that queue must never produce a report about a report
@@ -354,7 +375,10 @@ func runBehaviour(t *testing.T, b Behaviour, w *bufio.Writer) {
 		if len(rw) == 0 || b.Cfg.NullSender {
 			front = ""
 		}
-		if front != "" {
+		if strings.HasPrefix(front, "reroute") {
+			entry = nestedFront(t, q, front, rw) // nested pipelines between the rewriting one and the queue (front_nest_test.go)
+			meta.OriginalRcpts = nil
+		} else if front != "" {
 			entry = frontPipeline(t, q, front, rw)
 			meta.OriginalRcpts = nil
 		}
@@ -381,6 +405,9 @@ func runBehaviour(t *testing.T, b Behaviour, w *bufio.Writer) {
 		hdr := textproto.Header{}
 		hdr.Add("Subject", "verif-subject-"+itoa(b.ID))
 		hdr.Add("From", "<sender@example.com>")
+		if b.Cfg.HdrForm != "" {
+			hdr, _ = origHeader(b.Cfg.HdrForm, b.Cfg.Utf8, "verif-subject-"+itoa(b.ID))
+		}
 		if err := d.Body(ctx, hdr, buffer.MemoryBuffer{Slice: []byte("hello\r\n")}); err != nil {
 			t.Fatal(err)
 		}
